@@ -29,8 +29,21 @@ Definition r_hash (l : list N) : N :=
 Definition r_digest (st : list N) (views : list (list N)) : N :=
   r_hash (st ++ flat_map (fun l => N.of_nat (length l) :: l) views).
 
-Record permc := mkPerm { p_ord : list nat; p_ok : bool; p_digest : N }.
-Record case := mkCase { k_e : N; k_q : N; k_blobs : list blob; k_perms : list permc }.
+(* enumeration orders of a case: all permutations in lexicographic order (the order in which the
+   harness tries them; not written out in the case literal, Coq parses numerals slowly) or an explicit list *)
+Inductive pspec := PAll | PList (l : list (list nat)).
+Record case := mkCase { k_e : N; k_q : N; k_blobs : list blob; k_perms : pspec }.
+
+Fixpoint perms (n : nat) (l : list nat) : list (list nat) :=
+  match n with
+  | O => [[]]
+  | S n' => flat_map (fun x => map (cons x) (perms n' (remove Nat.eq_dec x l))) l
+  end.
+Definition case_orders (k : case) : list (list nat) :=
+  match k_perms k with
+  | PAll => perms (length (k_blobs k)) (seq 0 (length (k_blobs k)))
+  | PList l => l
+  end.
 
 Definition dummy_blob : blob := (0, Obj 0 (mkHdr TRegular 0 None None None None None None None) None).
 Definition apply_order (bl : list blob) (ord : list nat) : list blob := map (fun i => nth i bl dummy_blob) ord.
@@ -43,16 +56,9 @@ Definition model_digest (k : case) (ord : list nat) : N * bool :=
 
 Definition code (i j : nat) : N := N.of_nat i * 100000 + N.of_nat j.
 
-Fixpoint perm_mism (i j : nat) (k : case) (ps : list permc) : list N :=
-  match ps with
-  | [] => []
-  | p :: r =>
-      let '(d, ok) := model_digest k (p_ord p) in
-      (if (d =? p_digest p) && Bool.eqb ok (p_ok p) then [] else [code i j]) ++ perm_mism i (S j) k r
-  end.
-
-Definition model_mismatches (cases : list case) : list N :=
-  mism_from (fun i k => perm_mism i 0 k (k_perms k)) 0 cases.
+(* per case and order: digest * 2 + success flag; compared with the implementation's by the driver *)
+Definition model_digests (cases : list case) : list N :=
+  flat_map (fun k => map (fun ord => let '(d, ok) := model_digest k ord in d * 2 + b2n ok) (case_orders k)) cases.
 
 (* second pass: the model's state and views in full for one order *)
 Definition model_full (k : case) (ord : list nat) : list N :=
@@ -92,15 +98,15 @@ Definition ref_perm_ok (k : case) (B : list fblob) (ord : list nat) : bool :=
                    | None => false
                    end) r_addrs.
 
-Fixpoint ref_perms (i j : nat) (k : case) (B : list fblob) (ps : list permc) : list N :=
+Fixpoint ref_perms (i j : nat) (k : case) (B : list fblob) (ps : list (list nat)) : list N :=
   match ps with
   | [] => []
-  | p :: r => (if ref_perm_ok k B (p_ord p) then [] else [code i j]) ++ ref_perms i (S j) k B r
+  | p :: r => (if ref_perm_ok k B p then [] else [code i j]) ++ ref_perms i (S j) k B r
   end.
 
 Definition ref_mismatches (cases : list case) : list N :=
   mism_from (fun i k => if case_class k =? 0
-                        then match to_fblobs (k_blobs k) with Some B => ref_perms i 0 k B (k_perms k) | None => [] end
+                        then match to_fblobs (k_blobs k) with Some B => ref_perms i 0 k B (case_orders k) | None => [] end
                         else []) 0 cases.
 
 (* removed objects are reported by GetGarbage (C18_gc_reclaims), evaluated on the model state *)
@@ -113,10 +119,10 @@ Definition gc_perm_ok (k : case) (ord : list nat) : bool :=
                                                         (view_garbage s garb_all)
                         | _, _ => true
                         end) (objs (snd cb))) (cnrs s).
-Fixpoint gc_perms (i j : nat) (k : case) (ps : list permc) : list N :=
+Fixpoint gc_perms (i j : nat) (k : case) (ps : list (list nat)) : list N :=
   match ps with
   | [] => []
-  | p :: r => (if gc_perm_ok k (p_ord p) then [] else [code i j]) ++ gc_perms i (S j) k r
+  | p :: r => (if gc_perm_ok k p then [] else [code i j]) ++ gc_perms i (S j) k r
   end.
 Definition gc_mismatches (cases : list case) : list N :=
-  mism_from (fun i k => gc_perms i 0 k (k_perms k)) 0 cases.
+  mism_from (fun i k => gc_perms i 0 k (case_orders k)) 0 cases.
